@@ -9,6 +9,7 @@ from vt import gen
 
 PROPERTY = "C07"
 TITLE = "Askaryan scaling laws"
+TECHNIQUE = ('runtime monitoring, metamorphic oracle: every Askaryan model executed on transformed inputs (distance, sign of the angle, joint and whole-sample time shifts inside and across the grid, energy scaling, zero energy) and the recorded fields compared')
 ANCHORS = ["pyrex.askaryan:ARZAskaryanSignal.shower_signal", "pyrex.askaryan:ARZAskaryanSignal.__init__",
            "pyrex.askaryan:AVZAskaryanSignal.__init__", "pyrex.askaryan:ZHSAskaryanSignal.__init__"]
 RULE = ("one case = (model ARZ/AVZ/ZHS, shower EM/hadronic/mixed, energy 1e-3..1e12 GeV, vertex depth, grid N odd/even "
